@@ -214,6 +214,7 @@ def lexLine (line : String) : Line String S :=
   match fields line with
   | [] => .other line
   | kw :: args =>
+    if !(ObjText.lexKeywords.contains kw) then .other line else     -- no default clause in the keyword switch
     -- components[k] is read (panic if missing) and parsed (err) in order
     let nums (k : Nat) : Except Err (List S) :=
       (List.range k).foldl (fun acc i => do
